@@ -10,6 +10,8 @@ import (
 	"testing"
 	"unsafe"
 
+	goomy "github.com/tencent/goom/internal/zzverif/c08a/github.com/tencent/goom/zzverifx"
+	goomx "github.com/tencent/goom/zzverifx"
 	"github.com/tencent/goom/internal/zzverif/vh"
 )
 
@@ -64,10 +66,23 @@ func zzF3() int { return 3 }
 type zzVar struct {
 	ty     string
 	ptr    interface{}
+	path   string // full "import/path.name" when the variable is not in the root package
 	sym    string
 	direct func() interface{}
 	access func() interface{}
 	assign func(interface{})
+}
+
+const zzXPath = "github.com/tencent/goom/zzverifx."
+
+// zzInitX registers the variables of the other package (initialised data, full import path in the name)
+func zzInitX() {
+	zzVars["xint"] = &zzVar{ty: "int", ptr: goomx.PInt(), path: zzXPath + "zzx_int",
+		direct: func() interface{} { return *goomx.PInt() }, access: func() interface{} { return goomx.GetInt() },
+		assign: func(x interface{}) { goomx.SetInt(x.(int)) }}
+	zzVars["xstring"] = &zzVar{ty: "string", ptr: goomx.PString(), path: zzXPath + "zzx_string",
+		direct: func() interface{} { return *goomx.PString() }, access: func() interface{} { return goomx.GetString() },
+		assign: func(x interface{}) { goomx.SetString(x.(string)) }}
 }
 
 func zzInitTypes() {
@@ -365,7 +380,11 @@ func (h *zzHist) step(t []string) (res string) {
 		if t[2] == "p" {
 			m = h.builder(t[1]).Var(v.ptr)
 		} else {
-			m = h.builder(t[1]).UnExportedVar(zzPkgPath + v.sym)
+			name := zzPkgPath + v.sym
+			if v.path != "" {
+				name = v.path
+			}
+			m = h.builder(t[1]).UnExportedVar(name)
 		}
 		h.handles = append(h.handles, m)
 		return "ok"
@@ -483,7 +502,8 @@ func zzRunHist(toks []string) string {
 // TestVerifC08 runs the operation stream; VERIF_START skips lines already answered by a crashed predecessor.
 func TestVerifC08(t *testing.T) {
 	zzInitTypes()
-	if len(zzDecoys) == 0 {
+	zzInitX()
+	if len(zzDecoys) == 0 || goomx.Decoys() == 0 || goomy.Keep() == 0 {
 		t.Fatal("decoys")
 	}
 	out := vh.OpenOut()
